@@ -70,7 +70,7 @@ example : ConfL .little exLevel.erase exVal 6 := by
   simp [exLevel, exVal, NLevel.erase, eraseGs, NGroup.erase, ConfL, ConfGs, ConfG, ConfEs, ConfDs, ConfD, IsBytes,
     slice, get, getLE]
 example : specL .little "" exLevel exVal =
-    ["a=201", "b=3", "g:n=2,sz=10", "g[0]:sz=4", "g[0].x=5", "g[0].d=<61>", "g[1]:sz=3", "g[1].x=6", "g[1].d=<>",
-     "e=<6263>"] := by decide
+    ["a=201", "b=3", "g:n=2,sz=10", "g[0]:sz=4", "g[0].x=5", "g[0].d=<61>,sz=2", "g[1]:sz=3", "g[1].x=6", "g[1].d=<>,sz=1",
+     "e=<6263>,sz=4"] := by decide
 
 end Sbepp.Properties.C02
